@@ -426,7 +426,12 @@ macro_rules! global_entry_sink {
         pub struct $name;
 
         const _: () = {
+            #[cfg(not(metrique_verif))]
             use ::std::{sync::RwLock, boxed::Box, option::Option::{self, Some, None}, result::Result, any::Any, marker::{Send, Sync}};
+            #[cfg(metrique_verif)]
+            use ::std::{boxed::Box, option::Option::{self, Some, None}, result::Result, any::Any, marker::{Send, Sync}};
+            #[cfg(metrique_verif)]
+            use $crate::__verif_sync::RwLock;
             use $crate::{Entry, BoxEntry, BoxEntrySink, EntrySink, global::{AttachGlobalEntrySink, AttachHandle}};
 
             const NAME: &'static str = ::std::stringify!($name);
